@@ -17,6 +17,11 @@ declare -A CHECKS=(
  [C06e]="C11 C06" [C06f]="C06 C10" [C07e]="C07 C15" [C07f]="C07" [C08e]="C08 C15" [C08f]="C08" [C11e]="C11 C15" [C11f]="C11"
  [C14e]="C14 C15" [C14f]="C14 C09" [C15e]="C15 C03" [C15f]="C15 C11" [C17e]="C17 C10" [C17f]="C17" [C18e]="C18" [C18f]="C18" [C05e]="C05" [C05f]="C05"
  [C16i]="C16" [C16j]="C16" [C16k]="C16" [C16l]="C16"
+ [C01g]="C01" [C01h]="C01 C10" [C02g]="C02" [C02h]="C02 C10" [C03g]="C03" [C03h]="C03" [C04g]="C04" [C04h]="C04"
+ [C05g]="C05" [C05h]="C05 C10" [C06g]="C06" [C06h]="C06 C11" [C07g]="C07 C14" [C07h]="C07 C10" [C08g]="C08 C10" [C08h]="C08"
+ [C09g]="C09 C15" [C09h]="C09" [C10g]="C10 C18" [C10h]="C10 C05" [C11g]="C11" [C11h]="C11" [C12g]="C12" [C12h]="C12"
+ [C13g]="C13" [C13h]="C13" [C14g]="C14" [C14h]="C14 C05" [C15g]="C15" [C15h]="C15 C02" [C16m]="C16" [C16n]="C16"
+ [C17g]="C17" [C17h]="C17" [C18g]="C18" [C18h]="C18"
  [C13c]="C13" [C13d]="C13" [C14c]="C14" [C14d]="C14 C07" [C15c]="C15" [C15d]="C15" [C16c]="C16" [C16d]="C16"
 )
 for s in "$@"; do
@@ -44,7 +49,7 @@ for c in checks:
         det[c] = {'exit': code, 'first_case': case.group(1)[:200] if case else '', 'what': what.group(1)[:240] if what else ''}
 readme = open(f'/verif/seeded/{s}/README.md').read() if __import__('os').path.exists(f'/verif/seeded/{s}/README.md') else ''
 OVERRIDE = {'C06e': 'C11 (written against C06, which it does not violate as stated; it drops the colour scheme)', 'C15f': 'C15 (and C11)'}
-meta = {'id': s, 'breaks_property': OVERRIDE.get(s, s[:3]), 'source': 'independent sub-agent given only the property text and a scratch worktree of /repo' + (' (second round: asked for cooperating sites, state leaks, rare arithmetic, feature interactions, interleavings; told which first-round changes to avoid)' if s[3] in 'cdefgh' else ''),
+meta = {'id': s, 'breaks_property': OVERRIDE.get(s, s[:3]), 'source': 'independent sub-agent given only the property text and a scratch worktree of /repo' + (' (second round: asked for cooperating sites, state leaks, rare arithmetic, feature interactions, interleavings; told which first-round changes to avoid)' if s[3] in 'cdefghijklmn' else ''),
         'confirmed': {'patch_applies_to_HEAD': True, 'existing_suite_passes_with_change': suite_ok, 'demo_passes_on_clean_tree': clean, 'demo_fails_with_change': demo_fails},
         'what_i_ran': 'tools/try_seed.sh (scratch worktree: go build ./..., go test -count=1 ./..., the demo with and without the change; then ./check.sh <ID> --tier quick with VERIF_REPO=<worktree>)',
         'checks_run': det,
